@@ -700,36 +700,94 @@ def renderPieces (r : Rec) : Bytes :=
 
 /-! ### (f''') reconfiguration of an enabled file sink: `setFilePath` / `setFilePrefix` / `setFileSyncEnable`
 
-All three end in `CHECK_CLOSE_RESET_FD(fd_)` — also when the new value EQUALS the old one: the next
-`flush()` opens a new file.  `cache_` is not touched: a tail retained after a write error goes to the NEW
-file.  `setFileMaxSize` only stores the limit. -/
+As found, all three ended in `CHECK_CLOSE_RESET_FD(fd_)` — also when the new value EQUALS the old one: the next
+`flush()` opens a new file.  `cache_` was not touched: a tail retained after a write error went to the NEW
+file (`closeNow`, `fileRunAsFound`).  After patches/C09-09 they end in `closeLogFile()`: the file is closed at once
+only when no fd is open or nothing is cached; otherwise `need_reopen_` is set and `flush()` closes the file at the
+place where it checks the size limit — after the early return on an unwritten tail, i.e. only between batches.
+`setFileMaxSize` only stores the limit. -/
 
-def reopenK (s : FileSt) : FileSt :=
+/-- `CHECK_CLOSE_RESET_FD(fd_)` -/
+def closeNow (s : FileSt) : FileSt :=
   match s.cur with
   | some d => { s with closed := s.closed ++ [d], cur := none }
   | none => s
 
-def reopenLen (s : FileLen) : FileLen :=
+def closeNowLen (s : FileLen) : FileLen :=
   match s.cur with
   | some d => { s with closed := s.closed ++ [d], cur := none }
   | none => s
 
-/-- a history of an enabled file sink: back-end batches (with the kernel's answers), reconfigurations, and changes of the limit -/
+/-- the file sink with the flag of patches/C09-09 -/
+structure FileStR where
+  st : FileSt := {}
+  need : Bool := false          -- need_reopen_
+  deriving Repr, DecidableEq
+
+structure FileLenR where
+  st : FileLen := {}
+  need : Bool := false
+  deriving Repr, DecidableEq
+
+def FileStR.len (s : FileStR) : FileLenR := { st := s.st.len, need := s.need }
+
+/-- `closeLogFile()`: `if (fd_ >= 0 && !cache_.empty()) need_reopen_ = true; else CHECK_CLOSE_RESET_FD(fd_);` -/
+def reopenK (s : FileStR) : FileStR :=
+  if s.st.cur.isSome && !s.st.cache.isEmpty then { s with need := true } else { s with st := closeNow s.st }
+
+def reopenLen (s : FileLenR) : FileLenR :=
+  if s.st.cur.isSome && s.st.cache != 0 then { s with need := true } else { s with st := closeNowLen s.st }
+
+/-- `flush()` after patches/C09-09: `flushK`, whose last statement now reads
+`if (need_reopen_ || total_write_size_ >= file_max_size_) { CHECK_CLOSE_RESET_FD(fd_); need_reopen_ = false; }`.
+The two early returns of `flush()` (no file could be opened; an unwritten tail is left) come BEFORE that statement and
+leave the flag as it is.  When it is reached with the flag set the file is closed whatever its size (`closeNow` of a state
+whose file the limit check has already closed changes nothing). -/
+def flushR (max : Nat) (s : FileStR) (o : FOracle) : FileStR :=
+  let s' := flushK max s.st o
+  let ran := s.st.cur.isSome || (o.dirOk && o.openOk)
+  if ran && s'.cache.isEmpty && s.need then { st := closeNow s', need := false } else { st := s', need := s.need }
+
+def flushRLen (max : Nat) (s : FileLenR) (o : FOracle) : FileLenR :=
+  let s' := flushKLen max s.st o
+  let ran := s.st.cur.isSome || (o.dirOk && o.openOk)
+  if ran && s'.cache == 0 && s.need then { st := closeNowLen s', need := false } else { st := s', need := s.need }
+
+def fileBatchR (max : Nat) (s : FileStR) (b : List Bytes × FOracle) : FileStR :=
+  if b.1.isEmpty then s else flushR max { s with st := { s.st with cache := s.st.cache ++ b.1.flatten } } b.2
+
+/-- the retry of `AsyncSink::onDisable()` (patches/C09-06) -/
+def disableR (max : Nat) (s : FileStR) (o : FOracle) : FileStR :=
+  if s.st.cache.isEmpty then s else flushR max s o
+
+/-- a history of a file sink in use: back-end batches (with the kernel's answers), reconfigurations at ANY moment, changes of
+the limit, and the retry made by `disable()` (the state — open fd, cache, flag — survives disable/enable) -/
 inductive FOp where
   | batch (recs : List Bytes) (o : FOracle)
   | reopen
   | setMax (m : Nat)
+  | retry (o : FOracle)
 
-def fileStepR (st : Nat × FileSt) : FOp → Nat × FileSt
-  | .batch recs o => (st.1, fileBatchK st.1 st.2 (recs, o))
+def fileStepR (st : Nat × FileStR) : FOp → Nat × FileStR
+  | .batch recs o => (st.1, fileBatchR st.1 st.2 (recs, o))
   | .reopen => (st.1, reopenK st.2)
   | .setMax m => (m, st.2)
+  | .retry o => (st.1, disableR st.1 st.2 o)
 
-def fileRunR (max : Nat) (ops : List FOp) : Nat × FileSt := ops.foldl fileStepR (max, {})
+def fileRunR (max : Nat) (ops : List FOp) : Nat × FileStR := ops.foldl fileStepR (max, {})
 
 def FOp.recs : FOp → List Bytes
   | .batch recs _ => recs
   | _ => []
+
+/-- the code as found: every reconfiguration closes the file at once -/
+def fileStepAsFound (st : Nat × FileSt) : FOp → Nat × FileSt
+  | .batch recs o => (st.1, fileBatchK st.1 st.2 (recs, o))
+  | .reopen => (st.1, closeNow st.2)
+  | .setMax m => (m, st.2)
+  | .retry o => (st.1, disableK st.1 st.2 o)
+
+def fileRunAsFound (max : Nat) (ops : List FOp) : Nat × FileSt := ops.foldl fileStepAsFound (max, {})
 
 /-- the whole back end of an AsyncFileSink over the chunks the pipe delivers -/
 def backEnd (H : Nat) (tl : Bytes → Nat) (rend : Bytes × Bytes → Bytes) (max : Nat)
